@@ -233,18 +233,22 @@ def trace_steps(trace):
     return steps
 
 
-def exhibit(ctx, cov, name, c, dev, deviation, invariant, kinds, timeout=300):
-    """TLC's counterexample for one deviation constant (the others as established so far), replayed on the real
-    code.  -> does the tree show it?"""
+def exhibit_tlc(ctx, name, c, dev, deviation, invariant, timeout=300):
+    """TLC's counterexample for one deviation constant (the others as given)"""
     cc = with_dev(c, dict(dev, **{deviation: True}))
     r = ctx.model_check(SPEC, cfg(ctx, 'cex-' + name, cc, [invariant]), name='as-code-' + name, expect_violation=invariant,
                         timeout=timeout, workers=1, extra=('-fp', '11'))
+    return cc, r
+
+
+def exhibit_replay(ctx, cov, name, cc, r, deviation, invariant, kinds):
+    """... replayed on the real code.  -> does the tree show it?"""
     steps = trace_steps(r.trace)
     shown = []
     results = []
     kinds = kinds_for(cc, kinds)
     for i, kind in enumerate(kinds):
-        opts = dict(job_opts(ctx, i, [kind], c['Obj']), kind=kind)
+        opts = dict(job_opts(ctx, i, [kind], cc['Obj']), kind=kind)
         res = cd.replay_path((steps, cc, kind, os.path.join(ctx.scratch, 'cex-%s-%s' % (name, kind)), opts))
         last = res['monitor'][-1] if res['monitor'] else None
         shown.append(bool(res.get('completed')) and not res['mismatch'] and last is not None and last['step'] == len(steps) - 2)
@@ -269,28 +273,32 @@ SMALL = dict(Obj=('a', 'b'), Edges='EdgesFlat', MaxCommit=1, MaxAct=3)
 
 
 def deviations(ctx, cov, kinds, blobs=False):
-    """decide, constant by constant, whether the tree under test shows the deviation"""
+    """decide, constant by constant, whether the tree under test shows the deviation.  The counterexamples of the
+    first group do not touch each other's code paths (the other constants cleared); F16's pass through a store loop
+    that raises, so they are generated with LeakUnstored as established.  TLC runs side by side."""
     t0 = time.time()
     dev = {d: False for d in cd.DEVIATIONS}
-    dev['LeakUnstored'] = exhibit(ctx, cov, 'unstored-object-keeps-oid', cd.consts(Ops=('add', 'own', 'rm'), **SMALL), dev,
-                                  'LeakUnstored', 'NoOwnedUncommitted', kinds)
-    dev['InvalidateDoomed'] = exhibit(ctx, cov, 'added-object-emptied', cd.consts(Ops=('add', 'own', 'rm'), **SMALL), dev,
-                                      'InvalidateDoomed', 'NoStateLost', kinds)
-    if dev['InvalidateDoomed']:
-        exhibit(ctx, cov, 'savepoint-object-emptied', cd.consts(Ops=('add', 'sp'), MaxSp=1, **dict(SMALL, MaxAct=4)), dev,
-                'InvalidateDoomed', 'NoStateLost', kinds)
-    dev['AliasCreating'] = exhibit(ctx, cov, 'creating-map-shared', cd.consts(Ops=('add', 'sp'), MaxSp=2, **dict(SMALL, MaxAct=6)),
-                                   dev, 'AliasCreating', 'RollbackOwner', kinds)
+    first = [('unstored-object-keeps-oid', cd.consts(Ops=('add', 'own', 'rm'), **SMALL), 'LeakUnstored', 'NoOwnedUncommitted'),
+             ('creating-map-shared', cd.consts(Ops=('add', 'sp'), MaxSp=2, **dict(SMALL, MaxAct=6)), 'AliasCreating', 'RollbackOwner'),
+             ('add-while-transaction-failed', cd.consts(Ops=('add', 'awf'), **SMALL), 'AddBeforeJoin', 'NoOwnedUncommitted'),
+             ('imported-object-never-disowned', cd.consts(Ops=('sp', 'imp'), MaxSp=1, **SMALL), 'ImportNotCreating',
+              'NoOwnedUncommitted')]
     if blobs:
-        bk = tuple(k for k in kinds if k != 'mapping')
-        dev['SpBlobByName'] = exhibit(ctx, cov, 'savepoint-blob-overwritten',
-                                      cd.consts(Obj=('a', 'k'), Blobs=('k',), Edges='EdgesBlob', Ops=('add', 'sp'), MaxSp=2,
-                                                MaxCommit=1, MaxAct=5), dev, 'SpBlobByName', 'RollbackValue', bk)
-    dev['AddBeforeJoin'] = exhibit(ctx, cov, 'add-while-transaction-failed', cd.consts(Ops=('add', 'awf'), **SMALL), dev,
-                                   'AddBeforeJoin', 'NoOwnedUncommitted', kinds)
-    dev['ImportNotCreating'] = exhibit(ctx, cov, 'imported-object-never-disowned',
-                                       cd.consts(Ops=('sp', 'imp'), MaxSp=1, **SMALL), dev, 'ImportNotCreating',
-                                       'NoOwnedUncommitted', kinds)
+        first.append(('savepoint-blob-overwritten',
+                      cd.consts(Obj=('a', 'k'), Blobs=('k',), Edges='EdgesBlob', Ops=('add', 'sp'), MaxSp=2, MaxCommit=1, MaxAct=5),
+                      'SpBlobByName', 'RollbackValue'))
+    with concurrent.futures.ThreadPoolExecutor(len(first)) as ex:
+        runs = list(ex.map(lambda it: exhibit_tlc(ctx, it[0], it[1], {}, it[2], it[3]), first))
+    for (name, _c, d, inv), (cc, r) in zip(first, runs):
+        dev[d] = exhibit_replay(ctx, cov, name, cc, r, d, inv, kinds)
+    second = [('added-object-emptied', cd.consts(Ops=('add', 'own', 'rm'), **SMALL)),
+              ('savepoint-object-emptied', cd.consts(Ops=('add', 'sp'), MaxSp=1, **dict(SMALL, MaxAct=4)))]
+    known = {'LeakUnstored': dev['LeakUnstored']}
+    with concurrent.futures.ThreadPoolExecutor(len(second)) as ex:
+        runs = list(ex.map(lambda it: exhibit_tlc(ctx, it[0], it[1], known, 'InvalidateDoomed', 'NoStateLost'), second))
+    shown = [exhibit_replay(ctx, cov, name, cc, r, 'InvalidateDoomed', 'NoStateLost', kinds)
+             for (name, _c), (cc, r) in zip(second, runs)]
+    dev['InvalidateDoomed'] = shown[0]
     cov.timing['counterexamples_s'] = round(time.time() - t0, 1)
     return dev
 
